@@ -463,7 +463,7 @@ class InMemMap(BaseMap):
             dist = self.distance(loc, oloc)
             if dist < max_dist:
                 results.append((dist, label, oloc))
-        results.sort()
+        results.sort(key=lambda result: result[0])  # by distance only: labels are never compared
         t_delta_dist = time.time() - t_start
         logger.debug(f"Found {len(results)} closeby nodes "
                      f"in {t_delta_search} sec and computed distances in {t_delta_dist} sec")
@@ -508,7 +508,7 @@ class InMemMap(BaseMap):
                 # print(f"label={label}/{oloc}, nbr={nbr}/{nbr_data[0]}   -- loc={loc}  -> {dist}, {pi}, {ti}")
                 if dist < max_dist:
                     results.append((dist, label, oloc, nbr, nbr_data[0], pi, ti))
-        results.sort()
+        results.sort(key=lambda result: result[0])  # by distance only: labels are never compared
         t_delta_dist = time.time() - t_start
         logger.debug(f"Found {len(results)} closeby edges "
                      f"in {t_delta_search} sec and computed distances in {t_delta_dist} sec")
